@@ -59,7 +59,7 @@ def morph_table(rep, k):
 
     def rows(st):
         out = []
-        for kt in (k, k + 1):
+        for kt in ((k - 1, k, k + 1) if k >= 1 else (k, k + 1)):
             T, tm, tM = specs_target(kt)
             for fname, fcode, fspec in filters:
                 def code(I):
@@ -172,3 +172,6 @@ def run(rep, tier):
     align_table(rep)
     for k in ([1, 2] if tier == "quick" else [1, 2, 3]):
         morph_table(rep, k)
+
+    rep.rule("V-fresh", "no method or property of a tier / textgrid class is memoised (cached_property, lru_cache): derived views such as .timestamps are recomputed from the current entries at every access")
+    common.rule_no_memo(rep)
